@@ -37,13 +37,16 @@ fn main() {
         "C03" => props::c03::run(&env),
         "C04" => props::c04::run(&env),
         "C05" => props::c05::run(&env),
+        "C06" => props::c06::run(&env),
         "C07" => props::c07::run(&env),
         "C09" => props::c09::run(&env),
         "C10" => props::c10::run(&env),
         "C11" => props::c11::run(&env),
         "C12" => props::c12::run(&env),
         "C13" => props::c13::run(&env),
+        "C15" => props::c15::run(&env),
         "C16" => props::c16::run(&env),
+        "C17" => props::c17::run(&env),
         "C20" => props::c20::run(&env),
         _ => {
             eprintln!("unknown property {prop}");
